@@ -51,6 +51,14 @@ fn judge(m: Method, n: usize, kind: Kind, levels: &[f64], l: &mut Local) {
                 continue;
             }
             l.eval();
+            if k % 16 == 5 {
+                // the other kinds at the same level are asked first: an interval must not depend on it
+                for other in KINDS {
+                    if other != kind {
+                        let _ = m.call(other, level, n, k);
+                    }
+                }
+            }
             match m.call(kind, level, n, k) {
                 Out::Ok(o) => row[k] = Some(o),
                 other => {
@@ -94,6 +102,24 @@ fn judge(m: Method, n: usize, kind: Kind, levels: &[f64], l: &mut Local) {
                         }
                     }
                     other => l.violation(format!("{}|mirror-rejected|{}", m.name(), other.class()), "k is accepted but its mirror n-k is rejected".to_string(), case(k, level), json!({"mirror_outcome": other.describe()})),
+                }
+            }
+            // (b') the success-ratio front-end obeys the same mirror symmetry
+            if m == Method::Wilson && (k % 5 == 0 || n <= 40) && k >= 2 && n - k >= 2 {
+                let c1 = conf(kind, level);
+                let c2 = conf(kind.flipped(), level);
+                let r1 = call(|| proportion::ci_wilson_ratio(c1, n, k as f64 / n as f64)).map(|i| Obs::of64(&i));
+                let r2 = call(|| proportion::ci_wilson_ratio(c2, n, (n - k) as f64 / n as f64)).map(|i| Obs::of64(&i));
+                l.eval();
+                l.count("ratio front-end mirror judged");
+                match (&r1, &r2) {
+                    (Out::Ok(x), Out::Ok(y)) => {
+                        let e = ((1.0 - x.hi) - y.lo).abs().max(((1.0 - x.lo) - y.hi).abs());
+                        if !(e <= 2e-15) {
+                            l.violation(format!("ci_wilson_ratio|mirror|{}", kind.name()), "the ratio front-end is not mirror-symmetric: CI(n, (n-k)/n) != 1 - CI(n, k/n)".to_string(), case(k, level), json!({"CI(n, k/n)": x.json(), "CI(n, (n-k)/n) at flipped kind": y.json()}));
+                        }
+                    }
+                    (a, b) => l.violation("ci_wilson_ratio|mirror-rejected".to_string(), "the ratio front-end rejects an admissible proportion or its mirror".to_string(), case(k, level), json!({"a": a.describe(), "b": b.describe()})),
                 }
             }
             // (c) within [0,1] and midpoint between k/n and 1/2 (Wilson only)
@@ -197,6 +223,6 @@ pub fn run(run: &Arc<Run>) {
         }
         judge(m, n, KINDS[j % 3], &levels, l);
     });
-    run.require(&["monotone-in-k judged", "mirror judged", "midpoint judged", "level-monotone judged", "shrink judged", "large population judged"]);
+    run.require(&["monotone-in-k judged", "mirror judged", "midpoint judged", "level-monotone judged", "shrink judged", "large population judged", "ratio front-end mirror judged"]);
     let _: Option<Value> = None;
 }
